@@ -169,7 +169,7 @@ def run_verus(path, rlimit, extra=()):
     t0 = time.time()
     env = dict(os.environ)
     try:
-        p = subprocess.run(cmd, capture_output=True, text=True, timeout=int(os.environ.get('VERIF_VERUS_TIMEOUT', '900')), cwd=os.path.dirname(path), env=env)
+        p = subprocess.run(cmd, capture_output=True, text=True, timeout=int(os.environ.get('VERIF_VERUS_TIMEOUT', '3000')), cwd=os.path.dirname(path), env=env)
         out, err, rc = p.stdout, p.stderr, p.returncode
     except subprocess.TimeoutExpired as e:
         out, err, rc = (e.stdout or b'').decode() if isinstance(e.stdout, bytes) else (e.stdout or ''), 'timeout', 124
